@@ -483,6 +483,9 @@ func (x *reasm) evictionLoops(ruleID, clause string) {
 		var dels []*ssa.Call
 		for _, e := range p.Events {
 			if st, ok := e.Instr.(*ssa.Store); ok && e.Kind == EvStore {
+				if fa, isFA := st.Addr.(*ssa.FieldAddr); isFA && addedField(fieldOfAddr(fa)) {
+					continue // a field the reference struct does not have (statistics, debugging)
+				}
 				stores = append(stores, st)
 			}
 			if e.Kind == EvCall && calleeName(e.Instr) == "delete" {
